@@ -593,6 +593,37 @@ def scaling(spec, st, obs, rs, rng):
         why = obs_diff(drop_objects(obs, {"__system__"}), drop_objects(obs2, {"__system__"}), scale_of=expected)
         if why:
             vs.append(viol("C12", f"{kind}.{param}", f"×{k} on {name}.{param}: {why}"))
+    # the same multiplication made in place on the live model must give what a model built with the multiplied
+    # driver gives (each driver of each object, also where proportionality is only partial: shared networks)
+    from harness import history, realsys
+    if rs is not None and not history.has_shared_job(spec):
+        inplace = [("countries", cn, "average_carbon_intensity") for cn in sorted({spec["patterns"][pn]["country"] for pn in pats})]
+        inplace += [(kind, name, param) for kind, name, param, _, _ in drivers]
+        reach_names = None
+        for kind, name, param in rng.sample(inplace, min(3, len(inplace))):
+            if param not in spec[kind][name]:
+                continue
+            spec2 = copy.deepcopy(spec)
+            spec2[kind][name][param]["m"] = float(frac(spec2[kind][name][param]["m"]) * kf)
+            st2, obs2, _ = kcalc.real_outcome(spec2)
+            if st2 != "ok":
+                continue
+            ev += 1
+            old_q = spec[kind][name][param]
+            try:
+                setattr(rs.objs[name], param, realsys.mkq(spec2[kind][name][param]))
+                live_obs = {key: v for key, v in rs.observe().items() if key in obs2}
+                why = obs_diff(live_obs, obs2)
+                setattr(rs.objs[name], param, realsys.mkq(old_q))
+                back = {key: v for key, v in rs.observe().items() if key in obs}
+                why_back = obs_diff(back, obs)
+            except Exception as e:  # noqa
+                vs.append(viol("C12", f"in-place-raises:{kind}.{param}", f"×{k} on {name}.{param}: {type(e).__name__}: {e}"))
+                break
+            if why:
+                vs.append(viol("C12", f"in-place:{kind}.{param}", f"×{k} on {name}.{param} edited in place differs from the model built with it: {why}"))
+            elif why_back:
+                vs.append(viol("C12", f"in-place-undo:{kind}.{param}", f"×{k} then ÷{k} on {name}.{param}: {why_back}"))
     # all traffic × k: every load-proportional quantity × k
     spec3 = copy.deepcopy(spec)
     for p in spec3["patterns"].values():
